@@ -43,7 +43,8 @@ func (l capLogger) Debug(format string, v ...interface{}) {}
 func (l capLogger) Info(format string, v ...interface{})  {}
 func (l capLogger) Warn(format string, v ...interface{})  {}
 func (l capLogger) Error(format string, v ...interface{}) {
-	s := fmt.Sprintf(format, v...)
+	full := fmt.Sprintf(format, v...)
+	s := full
 	if len(s) > 1500 {
 		s = s[:1500]
 	}
@@ -52,6 +53,15 @@ func (l capLogger) Error(format string, v ...interface{}) {
 		cur.logs = append(cur.logs, s)
 	}
 	envMu.Unlock()
+	// guard mode: a recovered panic that is a memory fault carries the address; the stack is the
+	// other argument of nbio's "... failed: %v\n%v" log calls
+	if rc := l.e.cur; rc != nil && rc.t != nil && rc.t.Guarded() {
+		for _, x := range v {
+			if addr, ok := track.FaultAddr(x); ok {
+				rc.t.Fault(addr, track.FaultSite(full))
+			}
+		}
+	}
 }
 
 var (
@@ -147,12 +157,18 @@ type RunOpt struct {
 	Policy track.Policy
 	Move   bool // allocator moves a buffer that has to grow (like mempool.NewAligned)
 	FailAt int  // the FailAt-th conn write and all later ones fail (0: none)
+	// Guard: freed buffers become inaccessible memory instead of being poisoned (track guard mode);
+	// only RunFeeds honours it
+	Guard bool
 }
 
 func (o RunOpt) String() string {
 	s := o.Policy.String()
 	if o.Move {
 		s += "+move"
+	}
+	if o.Guard {
+		s += "+guard"
 	}
 	if o.FailAt > 0 {
 		s += fmt.Sprintf(" fail@%d", o.FailAt)
@@ -439,6 +455,13 @@ func (e *Env) Run(prog Program, opt RunOpt, keepDump bool) *Result {
 		}
 	}
 	if !out.Hang {
+		// content oracle: the wire of this space is ASCII (head, chunk framing) and the body pattern
+		// (lower-case letters), the allocator overwrites freed buffers with the poison byte and never
+		// recycles memory: a poison byte on the wire was read out of a freed buffer (free, then copy
+		// into a buffer that is live when it reaches conn.Write, so that the address check there is blind)
+		if i := bytes.IndexByte(out.Wire, track.PoisonByte); i >= 0 {
+			t.PoisonRead(nil, "conn.Write", fmt.Sprintf(" (wire byte %d of %d)", i, len(out.Wire)))
+		}
 		out.Viol = t.Violations()
 	}
 	return out
@@ -457,9 +480,17 @@ func (e *Env) runGuarded(rc *runCtx, body func()) {
 		defer func() {
 			if x := recover(); x != nil {
 				rc.out.Panic = "escaped: " + fmt.Sprint(x)
-				rc.out.Logs = append(rc.out.Logs, "escaped panic stack: "+string(debug.Stack()))
+				st := string(debug.Stack())
+				rc.out.Logs = append(rc.out.Logs, "escaped panic stack: "+st)
+				if addr, ok := track.FaultAddr(x); ok && rc.t.Guarded() {
+					rc.t.Fault(addr, track.FaultSite(st))
+				}
 			}
 		}()
+		if rc.t.Guarded() {
+			// per goroutine: a touch of a freed buffer panics instead of killing the process
+			debug.SetPanicOnFault(true)
+		}
 		body()
 	}()
 	tm := time.NewTimer(watchdog)
